@@ -23,5 +23,13 @@ def run(tier):
                        rule="instances: binary-constraint Gen_Dcop shapes (incl. variables without constraint, two components) in two strata, "
                             "non-negative costs and costs of both signs, min and max; optimum from Dcop!Opt; real SyncBB computations on the real "
                             "ordered graph under seeded start/delivery orders; at quiescence all computations must have finished and the held "
-                            "values must form an optimal assignment; non-trivial = more than one variable and quiescence reached")
+                            "values must form an optimal assignment; non-trivial = more than one variable and quiescence reached. "
+                            "MODEL: SyncBB.tla (SyncBBComputation on the chain of the real ordered graph; get_next_assignment, the last variable's "
+                            "sweep and the three handlers transcribed) checked by TLC over every start and delivery order (pre-start buffering and "
+                            "re-injection included): invariants QuietMeansFinished, TerminatedMeansOptimal, FirstFinishesFirst, SingleToken, "
+                            "ValueInDomain, BoundIsACost, PathsWellFormed, no deadlock before the end; every explored transition replayed on the real "
+                            "computations with bounds, values, cycle counts, end flags and every message (path triples, bound) compared; on the "
+                            "signed stratum TLC's counterexample to TerminatedMeansOptimal is replayed on the real computations and must fail there")
+    from ..syncbbmodel import model_part
+    model_part(v, tier, CLAUSES, ["quiet_fin", "optq"], seed_off=2)
     return v.finish()
